@@ -145,7 +145,11 @@ func (l *Gpos4_1) apply(ctx *Context, a, b int) int {
 	if p < 0 {
 		return -1
 	}
-	baseRecord := l.BaseArray[baseIdx][markRecord.Class]
+	row := l.BaseArray[baseIdx]
+	if int(markRecord.Class) >= len(row) {
+		return -1
+	}
+	baseRecord := row[markRecord.Class]
 	if baseRecord.IsEmpty() {
 		// TODO(voss): verify that this is what others do, too.
 		return -1
